@@ -581,6 +581,7 @@ Proof.
   - cbn [fst]. apply step_ok_same; reflexivity.
   - cbn [fst]. apply step_ok_same; reflexivity.
   - cbn [fst]. apply step_ok_same; reflexivity.
+  - cbn [fst]. apply step_ok_same; reflexivity.
 Qed.
 
 (* ---------- the statements ---------- *)
@@ -646,6 +647,7 @@ Proof.
   - cbn [fst]. apply (fr_rec _ _ (frame_poll_gone c rid) R).
   - cbn [fst]. eapply Rec_same; [| |exact R]; reflexivity.
   - cbn [fst]. eapply Rec_same; [| |exact R]; reflexivity.
+  - cbn [fst]. exact R.
   - cbn [fst]. exact R.
   - cbn [fst]. exact R.
 Qed.
